@@ -170,11 +170,37 @@ func (fr *frame) fsLookup(d *fsDir, base value) *fsEntry {
 			}
 			continue
 		}
+		if fr.run().digestNeverEquals(en, base) || fr.run().digestNeverEquals(base, en) {
+			continue
+		}
 		if fr.truth(mkBool(strEqTerm(en, base))) {
 			return e
 		}
 	}
 	return nil
+}
+
+// digestNeverEquals: a is a bare digest variable (a lowercase hex string by construction of the
+// real hashers) and b is a concrete name that is not a hex string: they cannot be equal.
+func (r *runState) digestNeverEquals(a, b value) bool {
+	sa, ok := a.(symStr)
+	if !ok || sa.t.Op != "var" || !r.sepFree[sa.t.Name] {
+		return false
+	}
+	bs, ok := normStr(b).(string)
+	if !ok {
+		return false
+	}
+	if bs == "" {
+		return true
+	}
+	for i := 0; i < len(bs); i++ {
+		c := bs[i]
+		if !(c >= '0' && c <= '9' || c >= 'a' && c <= 'f') {
+			return true
+		}
+	}
+	return false
 }
 
 // resolve returns (dir, entry) for a path; dir==nil when the parent directory does not exist.
@@ -668,7 +694,7 @@ func init() {
 		if err.(iface).t != nil {
 			return tuple{[]value(nil), err}
 		}
-		return tuple{symBytes{normStr(s)}, nilErr}
+		return tuple{symBytes{normStr(s), nil}, nilErr}
 	})
 	register("io.WriteString", func(fr *frame, a []value) value { return fr.writeTo(a[0], a[1]) })
 	register("bytes.NewReader", func(fr *frame, a []value) value {
